@@ -55,7 +55,8 @@ def _lines():
         st.builds(lambda n, c, t, p: f"{n};{c};0;0;{t};{p}\n", node, child, bigtype, text),
         st.builds(lambda n, c, t, p: f"{n};{c};1;0;{t};{p}\n", node, child, bigtype, text),
         st.builds(lambda n, c, t, p: f"{n};{c};1;0;{t};{p}\n", node, child, bigtype, text),
-        st.builds(lambda n, b: f"{n};255;3;0;0;{b}\n", node, st.sampled_from(("150", "-3", "1e3", "100", "0", "55", "100.4", "-0.4", "101", "1e2", "99.9"))),
+        st.builds(lambda n, b: f"{n};255;3;0;0;{b}\n", node, st.one_of(st.sampled_from(("150", "-3", "1e3", "100", "0", "55", "100.4", "-0.4", "101", "1e2", "99.9", "100.6", "-0.7", "100.5", "-0.5", "100.49", "-0.51", "100.99", "-0.99")),
+                                                                     st.integers(-150, 10150).map(lambda v: f"{v / 100:.2f}"))),
         st.builds(lambda n, b: f"{n};255;3;0;0;{b}\n", node, st.sampled_from(("150", "-3", "1e3", "100", "0", "55"))),
         st.builds(lambda n, p: f"{n};255;3;0;11;{p}\n", node, text),
         st.builds(lambda n, p: f"{n};255;3;0;12;{p}\n", node, text),
